@@ -163,7 +163,7 @@ def describe_gaps(case: Case, keep: set, text: str) -> list[dict]:
         if cls in CLASS_VARIANT:
             d["variant"] = CLASS_VARIANT[cls]
         if d["prev"] == "":
-            d["lead_ws"] = "yes" if text[:1] in (" ", "\t", "\r", "\n") else "no"
+            d["lead_ws"] = "yes" if text[:1] in (" ", "\t", "\r", "\n", "\ufeff") else "no"
         return [d]
     _t, offs = prog.offsets(keep)
     rd = cst.read(text)
@@ -175,7 +175,7 @@ def describe_gaps(case: Case, keep: set, text: str) -> list[dict]:
         if cls_of.get(gid) in CLASS_VARIANT:
             d["variant"] = CLASS_VARIANT[cls_of[gid]]
         if gid == -1:
-            d["lead_ws"] = "yes" if text[:1] in (" ", "\t", "\r", "\n") else "no"
+            d["lead_ws"] = "yes" if text[:1] in (" ", "\t", "\r", "\n", "\ufeff") else "no"
         out.append(d)
     return out
 
@@ -291,6 +291,9 @@ def random_items(seed: int, n: int, mode: str, depths=(2, 3, 4, 5), budgets=(20,
             lead = ""
         elif not lead_ws:
             lead = lead.lstrip(" \t\r\n")
+        if lead_ws and rng.random() < 0.12:
+            # a byte order mark in front of the file: the grammar skips it like whitespace
+            lead = "\ufeff" + lead
         prog = RandomProgram(toks, glue, r.classes, r.gaps, lead, lead_cls, r.trail, r.trail_cls)
         text, _ = prog.offsets(None)
 
